@@ -22,7 +22,9 @@ T = gen.TAGS
 BIN = os.path.join(runner.STUBS, 'bin')
 
 PATHS = ['src/main.rs', 'a.py', 'lib/util-x.c', 'src/co-7-fig.rs', 'x/y.z/w.js', 'doc/read me.md', 'etc/META-INF/foo.properties',
-         'v1.2/a_b.go', 'Makefile', 'dir-1/sub_2/file.name.txt', 'ünï/cödé.rs', 'LICENSE', 'build.gradle.kts']
+         'v1.2/a_b.go', 'Makefile', 'dir-1/sub_2/file.name.txt', 'ünï/cödé.rs', 'LICENSE', 'build.gradle.kts',
+         # version-like directory names: 'name.ext' + separator + number + separator inside the path itself
+         'pkg/foo-1.0-2-src/main.c', 'my dir/lib.v2-beta.rs', 'rel-2.1=3=x/mod.py']
 # coloured output and rg --json mark the path: anything may be in it
 HOSTILE_PATHS = ['x-12-y.c', 'a:b.rs', 'k=v.conf', './rel/p.rs', '../up.rs', '/abs/path.py', 'we ird:12:name.txt', 'dir/file:10:fn main.rs', 'Make-7-file', 'a.b-c=d:e']
 LOOKALIKE = re.compile(r'[\w-]+\.\w+[:=-]\d+[:=-]')
@@ -44,6 +46,8 @@ def gen_model(rng, fmt, headers=False):
             continue
         if fmt.startswith('plain') and ('.' not in os.path.basename(p)) and any(c in p for c in ':-='):
             continue
+        if fmt == 'plain' and LOOKALIKE.search(p):
+            continue     # without line numbers 'pkg/foo-1.0-2-src/main.c:x' is also line 2 of pkg/foo-1.0: no reader can tell
         used.add(p)
         hits = []
         ln = rng.choice([1, 3, 9, 10, 57, 99, 100, 998, 12345])
@@ -65,7 +69,7 @@ def gen_model(rng, fmt, headers=False):
                     continue
                 if fmt.startswith('plain') and LOOKALIKE.search(code):
                     continue
-                if fmt == 'plain' and (LOOKALIKE.search(p + ':' + code) or LOOKALIKE.search(p + '-' + code)):
+                if fmt == 'plain' and (LOOKALIKE.search(os.path.basename(p) + ':' + code) or LOOKALIKE.search(os.path.basename(p) + '-' + code)):
                     continue    # the path itself followed by "<sep>digits<sep>" at the start of the code
                 if fmt == 'plain' and re.match(r'\d+[:=-]', code):
                     continue    # "path:42: x" without line numbers is the very same text as line 42 with them: no reader can tell
